@@ -92,6 +92,7 @@ def one_caption(rows, doubled, df=False):
 
 
 def explore(chk):
+    sccgen.UNDERLINE_RNG = chk.sub("underlined_codes")
     rng = chk.rng
     progs = exhaustive_programs()
     chk.count("exhaustive_programs", len(progs))
